@@ -47,6 +47,9 @@ class Case:
 def show_rows(prog, rows):
     out = []
     for rel, tup in rows:
+        if rel.endswith('!clear'):
+            out.append((rel, []))       # pseudo row: the harness empties the relation's vector (the caller assigns new contents)
+            continue
         r = prog.rel(rel)
         out.append((rel, [t.show(v) for t, v in zip(r.tys, tup)]))
     return out
